@@ -39,7 +39,7 @@ def found_flag_attr(repo):
     if not cands:
         cands = both  # discover() may read it through a helper
     if len(cands) != 1:
-        raise AnalysisError(f"GeckoAsyncLocator: cannot identify the found flag by role (candidates {sorted(cands)})")
+        return None   # not a boolean attribute set in the callback (an enum state, a collaborator ...): the discovery model (R9) decides
     return cands.pop()
 
 
@@ -68,6 +68,9 @@ def wait_loop_decisions(ctx, repo, d, hd):
     class _Yielded(Exception):
         pass
     FLAG = found_flag_attr(repo)
+    if FLAG is None:
+        ctx.note(f"{d.qual}: the found flag is not a boolean attribute - the wait loop's decision table is replaced by the timed scenarios of the discovery model (R9)")
+        return
     loop = hd.loop_stmt if hasattr(hd, "loop_stmt") else None
     if loop is None:
         for n in ast.walk(d.node):
@@ -285,7 +288,12 @@ def blocking_discovery_model(ctx, repo, rule):
 
         def add_handler(a, k):
             h = a[0]
-            cb = h.attrs.get("_on_handled") if isinstance(h, Obj) else None
+            cb = None
+            if isinstance(h, Obj):
+                try:
+                    cb = it.getattr(h, "_on_handled")    # also when the callback sits behind a property / in a collaborator
+                except (PyRaise, Undecided):
+                    cb = h.attrs.get("_on_handled")
             if cb is not None:
                 st["cb"] = cb
         sock = Obj(None, {"open": Native(lambda a, k: st.__setitem__("open", True), "open"), "enable_broadcast": Native(lambda a, k: None, "enable_broadcast"),
@@ -374,11 +382,18 @@ def check(ctx):
             ctx.ob("R1", f"{fi.qual}::{nm}-append::once", g.loop_of(N) is None, f"{fi.qual}: {nm} append inside a loop", loc(fi, N.ast))
         same = (g.dom(I, D) and g.pdom(D, I)) or (g.dom(D, I) and g.pdom(I, D))
         ctx.ob("R1", f"{fi.qual}::appends-paired", same, f"{fi.qual}: identifier and descriptor are not appended on exactly the same paths (lists go out of step)", loc(fi, D.ast))
-        ctx.ob("R1", f"{fi.qual}::appends-the-reply-identifier", ast.unparse(ic.args[0]) == f"{h}.spa_identifier", f"{fi.qual}: seen-list gets `{ast.unparse(ic.args[0])}`", loc(fi, I.ast))
+        try:
+            _what = ast.unparse(g.expand(ic.args[0], at=I))   # through a local alias (`ident = handler.spa_identifier`)
+        except RecursionError:
+            _what = ast.unparse(ic.args[0])
+        ctx.ob("R1", f"{fi.qual}::appends-the-reply-identifier", _what == f"{h}.spa_identifier" or ast.unparse(ic.args[0]) == f"{h}.spa_identifier", f"{fi.qual}: seen-list gets `{_what}`", loc(fi, I.ast))
         # R3 found flag
         FLAG = found_flag_attr(repo)
-        flags = [n for n in g.stmt_nodes() if assigns_attr(n, f"self.{FLAG}")]
-        ctx.ob("R3", f"{fi.qual}::flag-sites", len(flags) == 1, f"{fi.qual}: found flag written at {len(flags)} sites", fi.loc)
+        flags = [n for n in g.stmt_nodes() if assigns_attr(n, f"self.{FLAG}")] if FLAG is not None else []
+        if FLAG is None:
+            ctx.note(f"{fi.qual}: found flag not a boolean attribute - when discovery stops is decided by the discovery model (R9: requested / address-given / no-request scenarios)")
+        else:
+            ctx.ob("R3", f"{fi.qual}::flag-sites", len(flags) == 1, f"{fi.qual}: found flag written at {len(flags)} sites", fi.loc)
         for Fn in flags:
             ok = g.dom(D, Fn) and repo.try_fold(Fn.ast.value) is True
             facts = g.guard_atoms(Fn)
@@ -388,7 +403,12 @@ def check(ctx):
             ctx.ob("R3", f"{fi.qual}::flag-only-when-requested", ok2, f"{fi.qual}: found flag set although neither address nor identifier was requested (a broadcast discovery would stop at the first spa); guards {sorted(facts)}", loc(fi, Fn.ast))
         # R6 descriptor
         dd = [n for n in g.stmt_nodes() if isinstance(n.ast, ast.Assign) and isinstance(n.ast.value, ast.Call) and call_name(n.ast.value) == "GeckoAsyncSpaDescriptor"]
-        ok = len(dd) == 1 and [ast.unparse(a) for a in dd[0].ast.value.args] == [f"{h}.spa_identifier", f"{h}.spa_name", fi.node.args.args[2].arg]
+        def _canon(a, at):
+            try:
+                return ast.unparse(g.expand(a, at=at))
+            except RecursionError:
+                return ast.unparse(a)
+        ok = len(dd) == 1 and [_canon(a, dd[0]) for a in dd[0].ast.value.args] == [f"{h}.spa_identifier", f"{h}.spa_name", fi.node.args.args[2].arg]
         ctx.ob("R6", f"{fi.qual}::descriptor-fields", ok, f"{fi.qual}: descriptor is not built from (reply identifier, reply name, sender)", fi.loc)
         if ok:
             ctx.ob("R6", f"{fi.qual}::appends-that-descriptor", ast.unparse(dc.args[0]) == ast.unparse(dd[0].ast.targets[0]), "another object is listed", loc(fi, D.ast))
